@@ -209,6 +209,7 @@ type world struct {
 	ctx  context.Context
 	done [3]chan bres
 	park [3]bool
+	caseLeaderRev int64 // create revision of the leader key when the case started
 	held [3]bool // parked requests whose transaction etcd has already decided (the winner's answer is held)
 	R    *res.Result
 
@@ -907,6 +908,15 @@ func (w *world) view() string {
 	return fmt.Sprintf("(View %s %s %s %s %s %s)", coqfmt.Bool(hasRoot), coqfmt.Bool(hasTime), coqfmt.List(stores), coqfmt.List(regions), cid, coqfmt.List(rstore))
 }
 
+// leaderRev: the create revision of the leader key = the leader term the member is serving in
+func (w *world) leaderRev() int64 {
+	r, err := w.x.S.GetClient().Get(w.ctx, w.x.S.GetMember().GetLeaderPath())
+	if err != nil || len(r.Kvs) == 0 {
+		return -1
+	}
+	return r.Kvs[0].CreateRevision
+}
+
 func (w *world) reset(caseNo int) {
 	for t := range w.park {
 		if w.park[t] || w.mpark[t] {
@@ -923,6 +933,7 @@ func (w *world) reset(caseNo int) {
 	w.regionIDs = nil
 	w.mkey = fmt.Sprintf("/verif/c20/%d/cluster_id", caseNo)
 	w.seen = nil
+	w.caseLeaderRev = w.leaderRev()
 }
 
 type caseRec struct {
@@ -1060,6 +1071,8 @@ func (w *world) genCase(r *rng.R, kind int, maxOps int) caseRec {
 				if len(parked) > 0 {
 					if r.Pct(12) {
 						w.step(&c, op{K: "finishsf", T: parked[r.Intn(len(parked))]})
+					} else if r.Pct(8) {
+						w.step(&c, op{K: "finishslow", T: parked[r.Intn(len(parked))], Ms: 50 + r.Intn(350)})
 					} else {
 						w.step(&c, op{K: "finish", T: parked[r.Intn(len(parked))], Out: r.Pick(76, 12, 12)})
 					}
@@ -1349,6 +1362,22 @@ func main() {
 				caseNo++
 				return
 			}
+		}
+		deliberate := false
+		for _, o := range c.Ops {
+			if o.K == "lcfault" {
+				deliberate = true
+			}
+		}
+		if rev := w.leaderRev(); !deliberate && rev != w.caseLeaderRev {
+			// the member lost its leader lease and was elected again during the case (machine load): the new term has
+			// loaded the cluster behind the case's back
+			R.Count("case:dropped-leadership-lost")
+			if err := w.x.WaitLeader(60 * time.Second); err != nil {
+				panic(err)
+			}
+			caseNo++
+			return
 		}
 		reached, lost := 0, 0
 		for i, o := range c.Ops {
